@@ -2,6 +2,7 @@ import dpkt.pcapng as dpng
 import dpkt
 
 PCAPNG_BT_DSB = 0x0000000A  # Decryption Secret Block
+DSB_SECRETS_TLS_KEYLOG = 0x544C534B  # secrets type "TLS Key Log"; other types (ZigBee keys, WireGuard, ...) are not key-log text
 
 
 class DecryptionSecretBlock(dpng._PcapngBlock):
@@ -225,6 +226,8 @@ class Reader(object):
                 ifaces = []  # interface numbering starts again in every section
             elif blk_type == PCAPNG_BT_DSB:
                 dsb = DecryptionSecretBlockLE(buf) if self.__le else DecryptionSecretBlock(buf)
+                if dsb.secrets_type != DSB_SECRETS_TLS_KEYLOG:
+                    continue  # secrets of another protocol
                 ts = -1
                 yield ts, dsb.pkt_data
 
